@@ -18,6 +18,8 @@
 package logical
 
 import (
+	"math"
+
 	modelv1 "github.com/apache/skywalking-banyandb/api/proto/banyandb/model/v1"
 )
 
@@ -87,6 +89,18 @@ func (pdo PushDownOrder) Optimize(plan Plan) (Plan, error) {
 // PushDownMaxSize pushes down the max volume to a Plan.
 type PushDownMaxSize struct {
 	max int
+}
+
+// SaturatingUint32 converts a pushed-down size (limit+offset, computed in int) to
+// uint32 without wrapping: a size beyond 32 bits means "no cap below MaxUint32".
+func SaturatingUint32(v int) uint32 {
+	if v < 0 {
+		return 0
+	}
+	if uint64(v) > math.MaxUint32 {
+		return math.MaxUint32
+	}
+	return uint32(v)
 }
 
 // NewPushDownMaxSize returns a new PushDownMaxSize.
